@@ -1245,6 +1245,33 @@ pub fn generate(name: &str, count: usize, rng: &mut Rng, sink: &mut dyn FnMut(Se
                 }
             }
         }
+        // RELATION between what precedes the first CR and what follows it: every prefix of the keyword
+        // and of the protocol names as the last token before the CR (alone or after further fields),
+        // followed by the same letters again, by its first letter, by a whole header, by LF, by another byte
+        "v1crsame" => {
+            let heads: [&str; 17] = ["P", "PR", "PRO", "PROX", "PROXY", "PROXY T", "PROXY TC", "PROXY TCP", "PROXY TCP4", "PROXY U", "PROXY UN", "PROXY UNKNOW",
+                "PROXY UNKNOWN", "P x", "PROXY TCP4 1.2.3.4 T", "PROXY TCP6 ::1 ::2 8 P", "PROXY UNKNOWN P"];
+            let mut combos: Vec<(usize, usize)> = Vec::new();
+            for h in 0..heads.len() { for f in 0..7usize { combos.push((h, f)); } }
+            for i in 0..count.min(combos.len()) {
+                let (h, f) = combos[i];
+                let head = heads[h];
+                let last = head.rsplit(' ').next().unwrap_or(head);
+                let first_letter = &last[..1];
+                let follow: String = match f {
+                    0 => last.to_string(),
+                    1 => first_letter.to_string(),
+                    2 => format!("{}ROXY TCP4 1.2.3.4 5.6.7.8 1 2\r\n", if first_letter == "P" { "P" } else { first_letter }),
+                    3 => "\n".to_string(),
+                    4 => "\r".to_string(),
+                    5 => "x".to_string(),
+                    _ => format!("\n{}", last),
+                };
+                let bytes = format!("{}\r{}", head, follow).into_bytes();
+                let chunks = if i % 2 == 0 { vec![bytes.clone()] } else { split_each(&bytes) };
+                sink(Session { sid: format!("v1crsame-{}", i), tag: json!({"g": "v1crsame"}), chunks, huge: None, consume: false, inplace: false, prelude: Vec::new() });
+            }
+        }
         // arbitrary bytes over small alphabets, incl. multi-byte characters next to CR
         "v1junk" => {
             let pieces: [&[u8]; 14] = [b"P", b"PROXY", b" ", b"\r", b"\n", "\u{e9}".as_bytes(), "\u{20ac}".as_bytes(), "\u{1F600}".as_bytes(), b"UNKNOWN", b"TCP4", b"1", b"\xff", b"\x00", b"::"];
